@@ -407,6 +407,7 @@ def oracle_structured(case, impl):
 
 
 GLOBAL_SUB = b"run"
+GLOBAL_SUB2 = b"deep"
 
 
 def flatten_globals(case):
@@ -415,13 +416,20 @@ def flatten_globals(case):
     declared override lists unchanged (Command::_propagate_global_args), so the level of `run` must hold exactly what
     the same line means on the flat command.  -> (flat cmd, flat argv) or None"""
     cmd, argv = decode_case(case)
-    if len(cmd["subs"]) != 1 or cmd["subs"][0]["name"] != GLOBAL_SUB or len(argv) < 2 or argv[1] != GLOBAL_SUB:
+    depth, cur = 0, cmd
+    # the chain `run` [-> `deep`]: empty subcommands; the ROOT's settings (args_override_self is a global setting) and the
+    # root's global arguments reach every level of it (seeded change seed4/C07-2 stopped global settings below the first level)
+    while len(cur["subs"]) == 1 and cur["subs"][0]["name"] == (GLOBAL_SUB, GLOBAL_SUB2)[min(depth, 1)] and depth < 2:
+        cur = cur["subs"][0]
+        depth += 1
+        if cur["args"] or cur["groups"] or cur["settings"]:
+            return None
+    if depth == 0 or cur["subs"] or len(argv) < 1 + depth or argv[1:1 + depth] != [GLOBAL_SUB, GLOBAL_SUB2][:depth]:
         return None
-    sub = cmd["subs"][0]
-    if sub["args"] or sub["subs"] or sub["groups"] or sub["settings"] or any("global" not in a["flags"] for a in cmd["args"]):
+    if any("global" not in a["flags"] for a in cmd["args"]):
         return None
     flat = dict(cmd, subs=[], args=[dict(a, flags=set(a["flags"]) - {"global"}) for a in cmd["args"]])
-    return flat, [argv[0]] + argv[2:]
+    return flat, [argv[0]] + argv[1 + depth:]
 
 
 def oracle_globals(case, impl):
@@ -442,6 +450,11 @@ def oracle_globals(case, impl):
         if sub is None or sub[0] != GLOBAL_SUB:
             return "the subcommand %s named on the line was not selected" % GLOBAL_SUB.decode()
         m = sub[1]
+        if decode_case(case)[0]["subs"][0]["subs"]:
+            _, sub2 = entries(m)
+            if sub2 is None or sub2[0] != GLOBAL_SUB2:
+                return "the subcommand %s named on the line was not selected" % GLOBAL_SUB2.decode()
+            m = sub2[1]
     return judge(cmd, exp, p, m)
 
 
@@ -810,12 +823,14 @@ def gen_globals(rng, n_cases, stats=None):
         flat = gen_spec(rng, force_target_action=pick(rng, [None, "count", "append", "set", "settrue", "setfalse"]))
         flat["args"] = [a for a in flat["args"] if is_opt(a)]
         flat["groups"] = []
+        deep = chance(rng, 0.5)
+        inner = [{"name": GLOBAL_SUB2, "about": b"D", "args": [], "groups": [], "subs": [], "settings": [], "aliases": []}] if deep else []
         c = dict(flat, args=[dict(a, flags=set(a["flags"]) | {"global"}) for a in flat["args"]],
-                 subs=[{"name": GLOBAL_SUB, "about": b"R", "args": [], "groups": [], "subs": [], "settings": [], "aliases": []}])
+                 subs=[{"name": GLOBAL_SUB, "about": b"R", "args": [], "groups": [], "subs": inner, "settings": [], "aliases": []}])
         for _ in range(3):
             target, n, seq = gen_invocation(rng, flat, target=flat["args"][0] if chance(rng, 0.6) else None)
             argv = render(rng, flat, seq)
-            out.append(gen_cmd.case_sx(c, [argv[0], GLOBAL_SUB] + argv[1:]))
+            out.append(gen_cmd.case_sx(c, [argv[0], GLOBAL_SUB] + ([GLOBAL_SUB2] if deep else []) + argv[1:]))
             if stats is not None:
                 stats["target action x repeats x override kind"]["%s x %s x %s" % (target["action"], bucket(n), override_kind(flat, target))] += 1
                 stats["target action"][target["action"]] += 1
